@@ -114,17 +114,28 @@ def run(tier, seed):
     ev.tlc(cfg, res, "invariants FormulationsAgree, SwapSym, InRange, PerfectWhenSame, RelabelInv")
     s = me.segment
     step = 1 if thorough else 4
-    for k, r in enumerate(rows):
-        if not thorough and (k + seed) % 2:
-            continue                  # the quick tier replays every second row (TLC still checked them all)
-        ri = np.array(r["ref"]["ivs"], dtype=float) * U
-        ei = np.array(r["est"]["ivs"], dtype=float) * U
+    # the same model on the DECIMAL frame grid of real annotations: time unit 0.1 s (frame sizes 0.1 / 0.2 / 0.5 s, the
+    # documented default among them), boundaries at multiples of 0.5 s, 20 frames - none of it exactly representable
+    res = tlc.run("MC_C16", cfg="MC_C16_dec", timeout=3400, heap="8g")
+    drows = res["rows"]["ROW"]
+    if len(drows) * 2 != res["distinct"]:
+        raise Machinery("MC_C16_dec: %d rows for %d states" % (len(drows), res["distinct"]))
+    ev.tlc("MC_C16_dec", res, "the same invariants on a 20-frame track (boundaries every 5 frames)")
+    for r in drows:
+        r["decimal"] = True
+    for k, r in enumerate(rows + drows):
+        dec = r.get("decimal", False)
+        if not thorough and (k + seed) % (3 if dec else 2):
+            continue                  # the quick tier replays every second / third row (TLC still checked them all)
+        sc = (lambda x: np.array(x, dtype=float) / 10.0) if dec else (lambda x: np.array(x, dtype=float) * U)
+        ri = sc(r["ref"]["ivs"])
+        ei = sc(r["est"]["ivs"])
         rl, el = r["ref"]["labs"], r["est"]["labs"]
-        fs = r["fs"] * U
+        fs = float(sc(r["fs"]))
         beta = rng.choice([0.5, 1.0, 2.0])
         out = r["out"]
         detail = {"ref_intervals": ri.tolist(), "ref_labels": rl, "est_intervals": ei.tolist(), "est_labels": el,
-                  "frame_size": fs, "beta": beta, "spec": {"yr": out["yr"], "ye": out["ye"], "cells": out["cells"]}}
+                  "frame_size": fs, "beta": beta, "spec": {"yr": out["yr"], "ye": out["ye"], "cells": out["cells"]}, "decimal_grid": dec}
         nr, ne = len(set(out["yr"])), len(set(out["ye"]))
         cls = ("single-frame" if len(out["yr"]) <= 1 else "all-distinct-labels" if (nr == len(out["yr"]) or ne == len(out["ye"]))
                else "one-label-side" if (nr == 1 or ne == 1) else "general")
